@@ -2101,10 +2101,24 @@ func (m *metadataAPI) checkExpandISRPreconditions(op *proto.RaftLog) error {
 
 // checkChangeLeaderPreconditions checks if the partition whose leader is being
 // changed exists. If the stream doesn't exist, it returns ErrStreamNotFound.
-// If the partition doesn't exist, it returns ErrPartitionNotFound. Otherwise,
-// it returns nil.
+// If the partition doesn't exist, it returns ErrPartitionNotFound. It also
+// checks that the new leader is still an in-sync follower of the partition
+// since the ISR may have changed after the leader was selected. Otherwise, it
+// returns nil.
 func (m *metadataAPI) checkChangeLeaderPreconditions(op *proto.RaftLog) error {
-	return m.partitionExists(op.ChangeLeaderOp.Stream, op.ChangeLeaderOp.Partition)
+	req := op.ChangeLeaderOp
+	if err := m.partitionExists(req.Stream, req.Partition); err != nil {
+		return err
+	}
+	partition := m.GetPartition(req.Stream, req.Partition)
+	if partition == nil {
+		return ErrPartitionNotFound
+	}
+	if leader, _ := partition.GetLeader(); req.Leader == leader || !partition.inISR(req.Leader) {
+		return fmt.Errorf("replica %s is not an in-sync follower of partition [stream=%s, partition=%d]",
+			req.Leader, req.Stream, req.Partition)
+	}
+	return nil
 }
 
 // checkCreateConsumerGroupPreconditions checks if the group to be created
